@@ -84,6 +84,8 @@ pub async fn resolve_host_with_cache(host: &str, port: u16) -> Result<SocketAddr
         return Ok(SocketAddr::new(ip, port));
     }
 
+    #[cfg(feature = "verif")]
+    crate::verif::point("dns.before_cache_get").await;
     if let Some(addr) = DNS_CACHE.get(host).await {
         DNS_CACHE.advance(host).await;
         // The cache is keyed by host only: the cached entry carries the port of
@@ -91,6 +93,8 @@ pub async fn resolve_host_with_cache(host: &str, port: u16) -> Result<SocketAddr
         return Ok(SocketAddr::new(addr.ip(), port));
     }
 
+    #[cfg(feature = "verif")]
+    crate::verif::point("dns.after_cache_miss").await;
     let resolver_opt = DNS_RESOLVER.read().await.clone();
     let mut addresses: Vec<SocketAddr> = if let Some(resolver) = resolver_opt {
         let lookup = tokio::time::timeout(DNS_TIMEOUT, resolver.lookup_ip(host))
@@ -133,6 +137,8 @@ pub async fn resolve_host_with_cache(host: &str, port: u16) -> Result<SocketAddr
             .collect::<Vec<_>>()
     };
 
+    #[cfg(feature = "verif")]
+    crate::verif::point("dns.after_lookup").await;
     if addresses.is_empty() {
         return Err(AnyTlsError::Protocol(format!(
             "No address found for {}",
@@ -154,7 +160,11 @@ pub async fn resolve_host_with_cache(host: &str, port: u16) -> Result<SocketAddr
     );
 
     DNS_CACHE.insert(host.to_string(), addresses.clone()).await;
+    #[cfg(feature = "verif")]
+    crate::verif::point("dns.after_insert").await;
     DNS_CACHE.advance(host).await;
+    #[cfg(feature = "verif")]
+    crate::verif::point("dns.after_advance").await;
     Ok(addresses[0])
 }
 
